@@ -232,7 +232,7 @@ func Prop() *core.Prop {
 		Level: core.Exploration,
 		Race:  true,
 		Units: "porcupine_partitions",
-		Rule:  "the first cases are the forced interleavings F1-F7 (serve.lookup / serve.handoff / req.wait / req.done) and R1-R3 (receipts.notify / receipts.wait), each parked with the yield-point controller; the rest are stress histories: 1-16 requester goroutines issuing blocking IQ get/set through all eight IQ entry points, tracked messages and presences through all eight of theirs, and receipts.SendMessageElement, against a raw peer that answers per request with a PRNG-chosen plan (reply, duplicate, wrong stanza kind, unknown id, no reply + cancel, late reply after cancel / after return, reply racing a cancel) and responses closed at once / after partial reads / late; a sentinel IQ must be answered at the end. Oracles: conservation over unique reply numbers (each routed exactly once, to the right caller or the handler), porcupine per request against the pending-table model, receipts outcome justification, recovered panics, quiescent-stall rule. Distinct = (entry point, reply plan shape, outcome) and forced-scenario ids.",
+		Rule:  "the first cases are the forced interleavings F1-F7 (serve.lookup / serve.handoff / req.wait / req.done) and R1-R3 (receipts.notify / receipts.wait), each parked with the yield-point controller; the rest are stress histories: 1-16 requester goroutines issuing blocking IQ get/set through all eight IQ entry points, tracked messages and presences through all eight of theirs, and receipts.SendMessageElement, against a raw peer that answers per request with a PRNG-chosen plan (reply, duplicate, wrong stanza kind, unknown id, no reply + cancel, late reply after cancel / after return, reply racing a cancel) and responses closed at once / after partial reads / late; a sentinel IQ must be answered at the end. Oracles: conservation over unique reply numbers (each routed exactly once, to the right caller or the handler), porcupine per request against the pending-table model, receipts outcome justification, recovered panics, quiescent-stall rule. Distinct = (entry point, reply plan shape, outcome), forced-scenario ids, and the observed interleaving of every request: the logical-clock order of its begin / seen-by-peer / cancel / cancel-returned / reply(type)→caller|handler / response-closed / end(outcome) events (signatures order/<entry point>/…).",
 		Assumptions: []string{
 			"when a reply and a cancellation overlap, routing to the caller or to the handler are both legal",
 			"callers always close the responses they receive (documented contract)",
